@@ -211,7 +211,9 @@ pub fn make_invalid(rule: &str, tape: Vec<u32>) -> Option<Invalid> {
             }
             let valid = render::render_contract_item(&p);
             let line = first_method_line(&valid, &format!("#[sv::msg({kind})]"))?.to_string();
-            inv("contract", "", valid.replacen(&line, &format!("{line}\n    #[sv::attr(serde(rename = \"x\"))]"), 1), "", valid.clone())
+            // the forwarded attribute may stand on either side of `sv::msg`
+            let bad = if t.chance(50) { format!("{line}\n    #[sv::attr(serde(rename = \"x\"))]") } else { format!("    #[sv::attr(serde(rename = \"x\"))]\n{line}") };
+            inv("contract", "", valid.replacen(&line, &bad, 1), "", valid.clone())
         }
         "entry-points-too-few-types" | "entry-points-too-many-types" | "entry-points-no-instantiate" => {
             if p.contract.generics.is_empty() {
